@@ -12,6 +12,15 @@ K_SYM = ('v', 'observed_length', 'P')
 # ----------------------------------------------------------------------------------------------
 # affine forms  { symbol term: coeff, 1: const }
 # ----------------------------------------------------------------------------------------------
+def _tri(run, ok, witness, rule, f, role, line, good, bad, **kw):
+    """ok -> discharged; a positive witness of deviation -> refuted; a shape that is merely not recognised -> undecided"""
+    if ok:
+        return run.ok(rule, f, role, line, good, **{k: v for k, v in kw.items() if k != 'inputs'})
+    if witness:
+        return run.refute(rule, f, role, line, bad, **kw)
+    return run.undecided(rule, f, role, line, 'construct not in a recognised form (%s)' % good)
+
+
 def affine(t, opaque_ok=True):
     if t[0] == 'c':
         if isinstance(t[1], int) and not isinstance(t[1], bool):
@@ -999,32 +1008,93 @@ def r_ret(ctx):
         run.check(sorted_ok, 'R-RET', f, role + ':sorted', nd.lineno, 'candidates pass through sorted()',
                   'the candidate collection %s is returned without sorted(): the order of a set of str depends on hash '
                   'randomisation, i.e. on the process' % show(L)[:80], inputs='two or more candidates')
-        if src[0] == 'v':
-            sname = src[1]
-            is_set = any(d.name == sname and d.kind == 'assign' and
-                         TermBuilder(f, d.node).def_term(d.id) in (('call', ('g', 'builtins.set'), (), ()),)
-                         for d in f.defs)
-            run.check(is_set, 'R-RET', f, role + ':duplicate-free', nd.lineno, 'candidates are collected in a set',
-                      'the candidates are not collected in a set: duplicates can be returned', inputs='ambiguous repairs')
-            adds = 0
-            for x in f.nodes:
-                for d in x.defs:
-                    if d.kind == 'mutate' and d.name == sname and isinstance(d.extra, ast.Attribute):
-                        if d.extra.attr == 'add':
-                            adds += 1
-                            tt = f.term(d.value, x)
-                            val = tt[2][0] if tt[2] else None
-                            how = passes_check(x, val) if val is not None else None
-                            run.check(bool(how), 'R-RET', f, 'add#%d:candidate-check-consistent' % adds, x.lineno, how or '',
-                                      'a candidate is added to the result set on a path where a supplied check was not '
-                                      'compared with set_vt(candidate, len(vt_check))',
-                                      inputs='repairs with a check supplied')
+        # where do the returned candidates come from?  every source must be a set (duplicate-free) whose elements were
+        # compared with the supplied check
+        SET0 = ('call', ('g', 'builtins.set'), (), ())
+        state = {'adds': 0, 'undecided': None, 'not_set': None}
+
+        def no_check_here(x_nd, extra=()):
+            for atom, pol in list(ctx.conds(f, x_nd)) + list(extra):
+                if atom[0] == 'cmp' and atom[2] == vt and atom[3] == ('c', None) and \
+                        ((atom[1] == 'is' and pol) or (atom[1] == 'is not' and not pol)):
+                    return True
+            return False
+
+        def source(t_, at, extra, depth=0):
+            """judge the collection t_ as seen at node `at`; reports add sites itself"""
+            if depth > 6:
+                state['undecided'] = 'nesting too deep'
+                return
+            unchecked_ok = no_check_here(at, extra)
+            while is_call(t_, 'builtins.list', 'builtins.set', 'builtins.tuple', 'builtins.frozenset') and len(t_[2]) == 1:
+                t_ = t_[2][0]
+            if t_[0] == 'comp' and t_[1] == 'set' and len(t_[3]) == 1:
+                gen, conds_ = t_[3][0]
+                elt = t_[2]
+                ex = list(extra)
+                for c_ in conds_:
+                    ex.extend(flatten_cond(c_, True))
+                how = passes_check(at, elt, extra=ex)
+                if how or unchecked_ok:
+                    state['adds'] += 1
+                    run.ok('R-RET', f, 'comprehension:candidate-check-consistent', at.lineno, how or 'no check supplied on this path')
+                    return
+                if elt[0] == 'iter' and elt[1] == gen:
+                    return source(gen, at, extra, depth + 1)      # an unfiltered copy of its source
+                state['undecided'] = 'set comprehension %s' % show(t_)[:60]
+                return
+            if t_[0] == 'v' and isinstance(t_[2], tuple):
+                name_ = t_[1]
+                for di in t_[2]:
+                    d = f.defs[di]
+                    if d.kind == 'assign':
+                        dt = TermBuilder(f, d.node).def_term(d.id)
+                        if dt == SET0:
+                            # elements arrive through .add(); each add is judged where it happens, unless the whole
+                            # collection is only used where no check was supplied
+                            for x in f.nodes:
+                                for d2 in x.defs:
+                                    if d2.kind == 'mutate' and d2.name == name_ and isinstance(d2.extra, ast.Attribute):
+                                        if d2.extra.attr == 'add':
+                                            state['adds'] += 1
+                                            tt = f.term(d2.value, x)
+                                            val = tt[2][0] if tt[2] else None
+                                            how = passes_check(x, val) if val is not None else None
+                                            if unchecked_ok and not how:
+                                                how = 'the collection is returned only where no check is supplied'
+                                            run.check(bool(how), 'R-RET', f, 'add#%d:candidate-check-consistent' % state['adds'],
+                                                      x.lineno, how or '',
+                                                      'a candidate is added to the result set on a path where a supplied check was '
+                                                      'not compared with set_vt(candidate, len(vt_check))',
+                                                      inputs='repairs with a check supplied')
+                                        elif d2.extra.attr not in ('update', 'discard', 'remove'):
+                                            run.refute('R-RET', f, 'result-set:%s' % d2.extra.attr, x.lineno,
+                                                       'the result set is modified by .%s()' % d2.extra.attr, inputs='every call')
+                        elif dt is not None and (dt[0] in ('comp', 'v') or is_call(dt, 'builtins.set', 'builtins.list')):
+                            if dt[0] == 'list' or (dt[0] == 'comp' and dt[1] != 'set'):
+                                state['not_set'] = show(dt)[:50]
+                            source(dt, f.nodes[d.node], extra, depth + 1)
+                        elif dt == ('list',) or (dt is not None and dt[0] == 'comp' and dt[1] == 'list'):
+                            state['not_set'] = show(dt)[:50]
                         else:
-                            run.refute('R-RET', f, 'result-set:%s' % d.extra.attr, x.lineno,
-                                       'the result set is modified by .%s()' % d.extra.attr, inputs='every call')
-            run.floor('R-RET', 'add sites on the result set', adds, 1)
+                            state['undecided'] = 'definition %s of `%s`' % (show(dt)[:50] if dt else None, name_)
+                    elif d.kind == 'mutate':
+                        continue
+                    else:
+                        state['undecided'] = '%s definition of `%s`' % (d.kind, name_)
+                return
+            state['undecided'] = 'collection %s' % show(t_)[:60]
+        source(src, nd, ())
+        if state['not_set']:
+            run.refute('R-RET', f, role + ':duplicate-free', nd.lineno,
+                       'the candidates are collected in %s, not in a set: duplicates can be returned' % state['not_set'],
+                       inputs='ambiguous repairs')
+        elif state['undecided']:
+            run.undecided('R-RET', f, role + ':source', nd.lineno, 'origin of the returned candidates not recognised: %s'
+                          % state['undecided'])
         else:
-            run.undecided('R-RET', f, role + ':source', nd.lineno, 'returned collection %s not recognised' % show(src)[:80])
+            run.ok('R-RET', f, role + ':duplicate-free', nd.lineno, 'candidates are collected in a set')
+            run.floor('R-RET', 'add sites on the result set', state['adds'], 1)
     run.floor('R-RET', 'returns of repair_dna', n, 2)
 
 
@@ -1203,14 +1273,33 @@ def r_recomb(ctx):
         found += 1
         lp = inner[0]
         lt = f.term(lp.stmt.iter, lp)
+        frag_iter = ('iter', it, nd.id)
+
+        def is_seg(x):
+            return x[0] == 'v' and x[1] == seg
+        # (A) index loop over range(len(segments) - 1) [or range(len(fragments))]; (B) zip(segments, fragments)
+        form, wit = None, None
         a = affine(lt[2][0]) if is_call(lt, 'builtins.range') and len(lt[2]) == 1 else None
-        lens = [x for x in (a or {}) if x != 1 and is_call(x, 'builtins.len')]
-        okr = a is not None and len(lens) == 1 and aff_eq(a, {lens[0]: 1, 1: -1}) and lens[0][2][0][0] == 'v' and lens[0][2][0][1] == seg
-        run.check(okr, 'R-RECOMB', f, 'recombination:range(len(segments)-1)', lp.lineno, 'one fragment between consecutive segments',
-                  'the recombination loop runs over %s, not range(len(segments) - 1)' % show(lt)[:60],
-                  inputs='strands with detected errors')
-        # inner body: acc += segments[i] + fragments[i]; after loop: acc += segments[-1]
-        okb = oke = False
+        if a is not None:
+            lens = [x for x in a if x != 1 and is_call(x, 'builtins.len')]
+            if len(lens) == 1 and is_seg(lens[0][2][0]) and a.get(lens[0]) == 1 and set(a) <= {lens[0], 1}:
+                if a.get(1, 0) == -1:
+                    form = 'index'
+                else:
+                    wit = 'range(len(segments) %+d)' % a.get(1, 0)
+            elif len(lens) == 1 and lens[0][2][0] == frag_iter and aff_eq(a, {lens[0]: 1}):
+                form = 'index'
+        elif is_call(lt, 'builtins.zip') and len(lt[2]) == 2 and not lt[3]:
+            if is_seg(lt[2][0]) and lt[2][1] == frag_iter:
+                form = 'zip'
+            elif is_seg(lt[2][1]) and lt[2][0] == frag_iter:
+                form = 'zip-swapped'
+        _tri(run, form is not None, wit is not None, 'R-RECOMB', f, 'recombination:range(len(segments)-1)', lp.lineno,
+             'one fragment between consecutive segments',
+             'the recombination loop runs over %s: one fragment belongs between each pair of consecutive segments, i.e. '
+             'len(segments) - 1 rounds' % wit, inputs='strands with detected errors')
+        # inner body: acc += segments[i] + fragments[i]   |   acc += segment + fragment (zip)
+        okb, witb = False, None
         for p, k in ctx.body_paths(f, lp.id):
             if k != 'back':
                 continue
@@ -1218,21 +1307,48 @@ def r_recomb(ctx):
             for e in events:
                 if e.kind == 'aug' and e.extra[0] == 'bin' and e.extra[1] == '+':
                     x, y = e.extra[2], e.extra[3]
-                    okb = x[0] == 'sub' and x[1][0] == 'v' and x[1][1] == seg and y[0] == 'sub' and x[2] == y[2] and \
-                        y[1][0] == 'iter' and x[2][0] in ('iter', 'idx')
-        for n in f.nodes:
-            if n.id in body and n.loops[-1] == nd.id:
-                for d in n.defs:
-                    if d.kind == 'aug' and d.value is not None:
-                        t = f.term(d.value, n)
-                        if t[0] == 'sub' and t[1][0] == 'v' and t[1][1] == seg and t[2] == ('c', -1):
-                            oke = True
-        run.check(okb, 'R-RECOMB', f, 'recombination:segment-then-fragment', lp.lineno, 'candidate += segments[i] + fragments[i]',
-                  'inside the recombination loop the candidate is not extended by segments[i] + fragments[i] of the same i',
-                  inputs='strands with detected errors')
-        run.check(oke, 'R-RECOMB', f, 'recombination:last-segment-appended', nd.lineno, 'candidate += segments[-1] after the loop',
-                  'the last segment is not appended after the recombination loop: every candidate (also for a clean strand) loses its tail',
-                  inputs='every strand')
+                    if form == 'index':
+                        def elem(z):
+                            if z[0] == 'sub' and is_seg(z[1]):
+                                return 'seg', z[2]
+                            if z[0] == 'sub' and z[1] == frag_iter:
+                                return 'frag', z[2]
+                            return None, None
+                        (kx, ix), (ky, iy) = elem(x), elem(y)
+                        if kx == 'seg' and ky == 'frag' and ix == iy and ix[0] in ('iter', 'idx'):
+                            okb = True
+                        elif kx == 'frag' and ky == 'seg':
+                            witb = 'the fragment is put before the segment'
+                        elif kx == 'seg' and ky == 'frag' and ix != iy:
+                            witb = 'segment %s is paired with fragment %s' % (show(ix)[:20], show(iy)[:20])
+                    elif form in ('zip', 'zip-swapped'):
+                        def which(z):
+                            if z[0] == 'item' and z[1] == ('iter', lt, lp.id):
+                                pos = z[2]
+                                return 'seg' if (pos == 0) == (form == 'zip') else 'frag'
+                            if z[0] == 'iter' and z[2] == lp.id:      # elements of a zipped source
+                                return 'seg' if is_seg(z[1]) else ('frag' if z[1] == frag_iter else None)
+                            return None
+                        kx, ky = which(x), which(y)
+                        if kx == 'seg' and ky == 'frag':
+                            okb = True
+                        elif kx == 'frag' and ky == 'seg':
+                            witb = 'the fragment is put before the segment'
+        _tri(run, okb, witb is not None, 'R-RECOMB', f, 'recombination:segment-then-fragment', lp.lineno,
+             'candidate += segment i + fragment i',
+             'inside the recombination loop %s' % witb, inputs='strands with detected errors')
+        # the last segment closes every candidate
+        last = ('sub', ('v', seg), ('c', -1))
+
+        def reads_last(t_):
+            return any(x[0] == 'sub' and is_seg(x[1]) and x[2] == ('c', -1) for x in walk_term(t_))
+        oke = any(reads_last(rt) for n, _r, rt in ctx.root_terms(f) if n.id in body and n.loops[-1] == nd.id and rt is not None)
+        anywhere = any(reads_last(rt) for n, _r, rt in ctx.root_terms(f)
+                       if scan not in n.loops and n.id != scan and rt is not None)
+        _tri(run, oke, not anywhere, 'R-RECOMB', f, 'recombination:last-segment-appended', nd.lineno,
+             'the last segment closes the candidate',
+             'the last segment is never read after the scan: every candidate (also for a clean strand) loses its tail',
+             inputs='every strand')
     run.floor('R-RECOMB', 'recombination loops', found, 1)
     # (3) count starts at 1 and is multiplied by len(fragments) per site
     okc, witness = False, None
@@ -1253,7 +1369,6 @@ def r_recomb(ctx):
             if is_call(t, 'math.prod') and len(t[2]) == 1 and t[2][0][0] == 'comp' and is_call(t[2][0][2], 'builtins.len') \
                     and not t[3]:
                 okc = True
-    from .misc2 import _tri
     _tri(run, okc, witness is not None, 'R-RECOMB', f, 'count=product-of-site-counts-from-1', f.node.lineno,
          'count starts at 1 and is the product of the per-site candidate counts',
          '%s: a clean strand (empty product) must give count 1 so that it reaches the product path' % witness,
